@@ -541,6 +541,17 @@ class C08(Driver):
                 if k in ret and ret[k][1][1] == "true" and ret[k][1][2] == ":ok":
                     sig = ("C08/stale-thread-chan-entry/message-lost" if tainted(c) else "C08/exactly-once/message-lost")
                     V(sig, "give of message %d on channel %d completed but nobody received it and it is not in the channel" % (mid, c))
+            # A rendezvous channel (capacity 0) hands a message to a reader that is already waiting, or keeps the giver
+            # parked until somebody takes it: a give that returned before the channel was closed has been matched, and
+            # closing the channel afterwards does not unmatch it. (Channels that ever held an abandoned entry are left
+            # out: a hand-off that meets one goes back into the queue, which a close then discards.)
+            for mid, (t, c, shape, seq) in sent.items():
+                if mid in got or c not in closed_at or c in stale or plan["caps"][c] != 0:
+                    continue
+                k = [key for key, op in ops.items() if op.get("mid") == mid][0]
+                if k in ret and ret[k][1][1] == "true" and ret[k][1][2] == ":ok" and ret[k][0] < closed_at[c]:
+                    V("C08/exactly-once/message-handed-over-before-the-close-was-lost",
+                      "give of message %d on rendezvous channel %d returned before the channel was closed, nobody received it" % (mid, c))
         # ---- teardown ----
         fin = res.stats.get("final")
         if fin and oc == "ok" and all(th["id"] in tend for th in plan["threads"]):
